@@ -5,6 +5,7 @@ from vlib import intervals as iv
 from vlib.runner import Stats, Violation, case_hash, sut
 
 ID = "C10"
+DETERMINISTIC = True  # pure in-memory functions judged by a pure oracle: see runner (a failure seen once counts)
 RULE = (
     "case = non-overlapping layout of 0..9 events with distinct timestamps on a ms grid (gaps from {0,1,2,3,4 ms, long}, lengths incl. 0, "
     "labels {a,b}), shuffled, x pulsetime from {0,1,2,3 ms, 1 s, 5 s}, or exactly one of the layout's gaps, or any whole number of ms up to 7 s. Oracle on integers: output all positive length, pairwise non-overlapping; "
